@@ -379,6 +379,54 @@ func RandomRegular(r Rand, n, d int) *G {
 	return best
 }
 
+// RandomRegularSwitch returns a random simple d-regular graph on n vertices (d < n; when n*d is
+// odd, d-1): the circulant with differences 1..d/2 (and n/2 for odd d) randomised by 10*m double
+// edge switches ab, cd -> ac, bd.  Unlike the pairing model it always returns a regular graph.
+func RandomRegularSwitch(r Rand, n, d int) *G {
+	if d >= n {
+		d = n - 1
+	}
+	if n*d%2 == 1 {
+		d--
+	}
+	if d <= 0 {
+		return New(n)
+	}
+	var diffs []int
+	for k := 1; k <= d/2; k++ {
+		diffs = append(diffs, k)
+	}
+	if d%2 == 1 {
+		diffs = append(diffs, n/2)
+	}
+	g := Circulant(n, diffs...)
+	var es [][2]int
+	for i := 0; i < n; i++ {
+		for j := i + 1; j < n; j++ {
+			if g.Adj[i][j] {
+				es = append(es, [2]int{i, j})
+			}
+		}
+	}
+	for it := 0; it < 10*len(es); it++ {
+		x, y := r.Intn(len(es)), r.Intn(len(es))
+		a, b, c, e := es[x][0], es[x][1], es[y][0], es[y][1]
+		if r.Intn(2) == 0 {
+			c, e = e, c
+		}
+		if x == y || a == c || b == e || a == e || b == c || g.Adj[a][c] || g.Adj[b][e] {
+			continue
+		}
+		g.Del(a, b)
+		g.Del(c, e)
+		g.Add(a, c)
+		g.Add(b, e)
+		es[x] = [2]int{a, c}
+		es[y] = [2]int{b, e}
+	}
+	return g
+}
+
 // Perturb flips k random pairs.
 func Perturb(r Rand, g *G, k int) *G {
 	h := g.Copy()
